@@ -302,6 +302,8 @@ def main(argv=None):
                 # a listed finding of another property on a function this property's closure shares: reported there
                 foreign_known.append("%s (listed under %s)" % (o["name"], k.get("property")))
     own_known = [1 for l in lines if l.startswith("KNOWN-FINDING")]
+    foreign_count = sum(1 for o, k in known_hit
+                        if not (k.get("property") == prop or prop in (o.get("props") or []) and k.get("property") is None))
     if exit_code == 0 and (undecided or errors):
         exit_code = 2
     if crashes:
@@ -340,7 +342,7 @@ def main(argv=None):
         "property_id": prop, "tier": tier, "seed": seed, "level": level_now, "wall_s": round(wall, 2),
         "violations": len(violations),
         "coverage": {
-            "obligations": n - len(foreign_known), "discharged": len(discharged),
+            "obligations": n - foreign_count, "discharged": len(discharged),
             "checker_cmd": "./check %s --tier %s  (python3-vt -m pyvc.check; z3 %s API, cvc5 CLI for unknowns)" % (prop, tier, z3.get_version_string()),
             "trusted_base": TRUSTED_BASE + ["assumed contract: " + t for t in trusted] + props_mod.EXTRA_TRUST.get(prop, []),
             "explanation": "contract-based deductive verification of the real source of /repo: pyvc parses the functions, "
@@ -366,7 +368,7 @@ def main(argv=None):
     with open(os.path.join(ROOT, "evidence", prop + ".json"), "w") as f:
         json.dump(ev, f, indent=1, default=str)
     print("%s tier=%s functions=%d obligations=%d discharged=%d refuted=%d undecided=%d known=%d wall=%.1fs exit=%d"
-          % (prop, tier, len(results), n, len(discharged) + len(foreign_known), len(refuted) - len(foreign_known), len(undecided) + len(errors), len(own_known), wall, exit_code))
+          % (prop, tier, len(results), n, len(discharged) + foreign_count, len(refuted) - foreign_count, len(undecided) + len(errors), len(own_known), wall, exit_code))
     if a.v:
         for o in all_obs:
             if o["status"] != "unsat":
